@@ -5,7 +5,7 @@ cd "$(dirname "$0")"
 export CARGO_NET_OFFLINE=true
 mkdir -p work evidence
 ( cd lean && lake build SfsModel sfsmodel $(ls SfsModel/Props/*.lean | sed 's#/#.#g; s#\.lean$##' | tr '\n' ' ') )
-cargo build --offline --manifest-path /repo/Cargo.toml -p sfs-cli --target-dir work/target-repo
-[ -f harness/Cargo.lock ] || cp /repo/Cargo.lock harness/Cargo.lock
+cargo build --offline --manifest-path ${SFS_REPO:-/repo}/Cargo.toml -p sfs-cli --target-dir work/target-repo
+[ -f harness/Cargo.lock ] || cp ${SFS_REPO:-/repo}/Cargo.lock harness/Cargo.lock
 cargo build --offline --manifest-path harness/Cargo.toml --target-dir work/target-harness
 echo "setup done"
